@@ -103,3 +103,44 @@ var terminateTable = map[string]string{
 	"pebbles.(*subscriptionEntry).Listen":      "per-subscription writer: a failed marshal/write ends the subscription; teardown is deferred (R5 v)",
 	"queryer.(*MultiOpQueryer).Subscribe$2":    "upstream reader: a read/decode failure ends the upstream subscription; the deferred function signals completion with resCh <- nil",
 }
+
+// detTable: map ranges whose order-independence needs an argument beyond the recognised
+// patterns (DESIGN Appendix A).
+var detTable = map[string]tabEntry{
+	"executor.(*DepthExecutor).executeRequests/range map[int]struct{}": {1,
+		"K: writes qResps[ind] where ind is the loop key (slice element store keyed by the key)"},
+	"executor.(indexMap).GetSameIndexes/range param executor.indexMap": {1,
+		"early return on v.targetIndex == targetIndex: target indexes are assigned as len(iMap) at insertion, hence unique per entry — at most one iteration can match"},
+	"planner.(ScrubFields).clean/range param map[string][]string": {1,
+		"first match then break: the match is unique when __typename is present; when absent every registered type carries the same helper list for that path (the planner registers helpers per path) — shared stitched objects would break this, see R13k copy-per-place"},
+	"executor.(*DepthExecutorManager).merge/range .Result map[string]interface{}": {2,
+		"K: writes targetObj[k] / dem.result[key] for its own key; mergeMaps only touches the two values stored under that key"},
+	"executor.mergeMaps/range param map[string]interface{}": {1,
+		"K: every iteration reads and writes left[key] for its own key only (recursion descends into the values under that key)"},
+	"merger.(ExtendMergerFunc).Merge/range .Types map[string]*github.com/vektah/gqlparser/v2/ast.Definition": {1,
+		"each iteration mutates only the definition stored under its own key (fills union members from PossibleTypes[name], whose order comes from slices)"},
+	"merger.(TypeURLMap).GetURLs/range map[string]struct{}": {1,
+		"the unsorted URL list is consumed only by routeSelectionSet, which writes result[loc] keyed by the element (callers frozen by R4a-style check below)"},
+	"merger.(TypeURLMap).SetFromSchema/range param map[string]*github.com/vektah/gqlparser/v2/ast.Definition": {1,
+		"K: Set(k, field, url) and SetTypeIsImplementsNode(k) write the entry of the loop key; field order inside comes from a slice"},
+	"merger.mergeCustomObjectFields/range map[int]bool": {2,
+		"first loop: boolean or/and accumulation (commutative); second loop only builds the list of names inside an error message"},
+	"merger.mergeTypes/range param map[string]*github.com/vektah/gqlparser/v2/ast.Definition": {1,
+		"each iteration reads a[k], b[k] and writes result[k] for its own key; an early return only selects which of several conflicts is reported — acceptance (no conflict at any key) does not depend on order"},
+	"pebbles.(subscriptionDict).CleanAll/range param pebbles.subscriptionDict": {1,
+		"D: closes and deletes every entry; per key independent"},
+	"planner.(*CachedPlanner).clean/range .cacheTimers map[planner.hashKey]time.Time": {1,
+		"D: collect expired keys, then delete each — the set of deleted keys does not depend on order"},
+	"planner.(ScrubFields).Clean/range param planner.ScrubFields": {1,
+		"each entry deletes helper keys at its own path and prunes emptied ancestors; deletions at different paths commute (case analysis on object/list shapes, DESIGN Appendix A)"},
+	"planner.(ScrubFields).Merge/range param planner.ScrubFields": {1,
+		"K: writes sf[i][j] for the loop keys i (outer) and j (inner)"},
+	"planner.createQueryPlanSteps/range map[string]github.com/vektah/gqlparser/v2/ast.SelectionSet": {1,
+		"one step per location; the order of sibling steps permutes independent steps only (disjoint response keys; executor groups by URL)"},
+	"queryer.(*UploadMap).extract/range map[string]interface{}": {1,
+		"only the numbering of multipart parts follows map order; the file map and the parts are numbered consistently"},
+	"queryer.extractFiles/range .Variables map[string]interface{}": {1,
+		"only the numbering of multipart parts follows map order; the file map and the parts are numbered consistently"},
+	"requests.Parse/range map[string][]string": {1,
+		"injections at distinct variable slots commute; two files at the same slot fail in either order"},
+}
